@@ -273,7 +273,7 @@ def c10_generate(tier, seed):
                             r.choice(["mixup", "cutmix", "mixed", "mixed"]), kind, seed=r.randrange(10 ** 6),
                             K=r.randint(2, max(2, min(B, 10))), mode=r.choice(MODES), rc=r.random() < 0.8,
                             ctor=r.choice(["direct", "direct", "compose"]), nb=3,
-                            alphas=(r.choice([0.2, 0.8, 1.0, 5.0]), r.choice([0.2, 1.0, 3.0])),
+                            alphas=(r.choice([0.02, 0.2, 0.8, 1.0, 5.0]), r.choice([0.02, 0.2, 1.0, 3.0])),
                             q=r.choice([0.5, 0.5, 0.2, 0.8, 0.35])))
     # the ready-made MAE fine-tuning collator (flip, batch/batch, 0.5/0.5, no ctx)
     for n in range(60 if quick else 400):
@@ -604,7 +604,7 @@ def c11_generate(tier, seed):
     for n in range(400 if quick else 3200):
         N = r.randint(2, 14 if quick else 20)
         nd = r.choice([1, 2, 2, 3, 3])
-        cfgs.append(c11_cfg(r, N, r.randint(2, 10), nd, r.random() < 0.7, r.choice([0.3, 0.5, 1.0, 1.0]), None,
+        cfgs.append(c11_cfg(r, N, r.choice([1, 2, 2, 3, 5, 10, r.randint(2, 10)]), nd, r.random() < 0.7, r.choice([0.3, 0.5, 1.0, 1.0]), None,
                             r.choice([0.2, 0.8, 1.0, 5.0]), r.random() < 0.7,
                             r.choice([0, 1, r.randrange(10 ** 6), r.randrange(10 ** 6)]),
                             reps=r.choice([1, 1, 2]), nshapes=r.choice([2, 2, 3])))
